@@ -10,7 +10,7 @@ from sim import propinfo  # noqa: E402
 
 ENGINE_OF = {
     'C01': 'A', 'C02': 'A', 'C03': 'A', 'C04': 'C', 'C05': 'B', 'C06': 'B', 'C07': 'S', 'C08': 'H', 'C09': 'A',
-    'C10': 'A', 'C11': 'A', 'C12': 'A+D', 'C13': 'A', 'C14': 'A', 'C15': 'U', 'C16': 'A+K', 'C17': 'B', 'C18': 'A+R',
+    'C10': 'A', 'C11': 'A', 'C12': 'A+D', 'C13': 'A+B', 'C14': 'A', 'C15': 'U', 'C16': 'A+K', 'C17': 'B', 'C18': 'A+R',
 }
 
 TECHNIQUE = {
@@ -22,6 +22,7 @@ TECHNIQUE = {
     'U': 'deterministic simulation: backup actor (in-process rsync stub) scheduled against writers/packer at seam-call granularity',
     'A+D': 'deterministic simulation: seeded histories with validate() after every step + storage-rot fault injection (bit flips, truncations, index perturbations) with read-back ground truth',
     'A+K': 'deterministic simulation: seeded histories under randomised lookup thresholds, bulk results vs single-key results vs model',
+    'A+B': 'deterministic simulation: seeded repack-free histories with pack bytes compared before/after every step, plus fault injection: kill inside an operation then restart, and one failing seam call then the same handle continues',
     'A+R': 'deterministic simulation: seeded histories with descriptor census, seam open-file table and request-size / tracemalloc monitors',
 }
 
@@ -38,7 +39,7 @@ TEXT = {
     'C10': 'Chained compression modes with an affected-row diff of the raw index.',
     'C11': 'Delete subsets in every form followed by repack; pack tiling checked on raw bytes.',
     'C12': '(a) validate() after every step of seeded histories; (b) single damages enumerated / sampled on small containers with ground truth from reading every object.',
-    'C13': 'Pack bytes and raw index compared before/after every step of repack-free histories over several handles.',
+    'C13': 'Pack bytes and raw index compared before/after every step of repack-free histories over several handles, also when the history continues after a kill (new process on the crash image) or after an I/O error (same handle).',
     'C14': 'Import matrix between two independently configured containers.',
     'C15': 'The real backup_container driven through an in-process rsync stub, interleaved with writers and a pack-writer.',
     'C16': 'Bulk vs single-key results under randomised thresholds; the stand-alone helper clause is checked by an adjunct exhaustive enumeration that is not a simulation result (DESIGN.md 5).',
@@ -90,7 +91,7 @@ def main():
         },
         'engines': [
             {'name': 'A', 'path': 'sim/hist.py', 'serves_properties': ['C01', 'C02', 'C03', 'C09', 'C10', 'C11', 'C12', 'C13', 'C14', 'C16', 'C18'], 'kind_free_text': 'sequential history simulator with reference model'},
-            {'name': 'B', 'path': 'sim/crash.py', 'serves_properties': ['C05', 'C06', 'C17'], 'kind_free_text': 'victim operation under crash / power-loss / I/O-fault injection'},
+            {'name': 'B', 'path': 'sim/crash.py', 'serves_properties': ['C05', 'C06', 'C13', 'C17'], 'kind_free_text': 'victim operation under crash / power-loss / I/O-fault injection'},
             {'name': 'C', 'path': 'sim/conc.py', 'serves_properties': ['C04'], 'kind_free_text': 'baton-scheduled multi-actor simulator'},
             {'name': 'D', 'path': 'sim/damage.py', 'serves_properties': ['C12'], 'kind_free_text': 'damage-at-rest injector'},
             {'name': 'S', 'path': 'sim/streams.py', 'serves_properties': ['C07'], 'kind_free_text': 'stream program interpreter'},
